@@ -17,8 +17,9 @@ CONSTANTS
   StakingDelay = 2
   VotingDelay = 2
   MaxHeight = 5
+  MaxDiscards = 2
   MaxOps = 6
 VIEW viewAbs
-INVARIANTS TypeOK TotalIsSum Conservation TallyIsSumOfVotes VoteTotalIsSum VoteLeStake UnsetIsEmpty VprIsVotes RankingIsSorted NameWellFormed
-PROPERTIES LockPeriods MinStake UnstakeExact StakeExact NameOnlyByOwner NamePricePaid OnlyOwnTx ParamsAtBoundary
+INVARIANTS TypeOK TotalIsSum Conservation TallyIsSumOfVotes VoteTotalIsSum VoteLeStake UnsetIsEmpty VprIsVotes RankingIsSorted NameWellFormed ParamMemEqualsState ParamsPositive
+PROPERTIES LockPeriods MinStake UnstakeExact StakeExact NameOnlyByOwner NamePricePaid OnlyOwnTx ParamsAtBoundary PendingOnlyByVote DiscardRestores
 CHECK_DEADLOCK FALSE
